@@ -828,3 +828,37 @@ def policer_core(ctx, rep, rule):
             else:
                 rep.inconclusive(rule, "RPSPolicer.get_timeout|row:" + name, "slot arithmetic differs from the reference (%s ; return %s): numerical equivalence is "
                                  "not decided statically" % (list(gu), gr), where)
+
+
+def passthrough(ctx, rep, rule):
+    """The thin Python wrappers add nothing of their own: __iter__/__aiter__ return self and touch no state (a walk that is
+    re-iterated continues, it does not restart); get()/get_many() return what the socket returned, untouched."""
+    for mod, cls, meth in (("sync_getnext", "GetNextIter", "__iter__"), ("sync_getbulk", "GetBulkIter", "__iter__"),
+                           ("async_client", "GetNextIter", "__aiter__"), ("async_client", "GetBulkIter", "__aiter__")):
+        ps = paths(ctx, rep, rule, mod, cls, meth)
+        if not ps:
+            continue
+        node = fn_node(ctx, mod, cls, meth)
+        eff = [e for p in ps for e in p.events if e.kind in ("store", "delete", "call")]
+        rets = {pysym.text(p.ret) for p in ps if p.done == "return"}
+        rep.check(rule, "%s.%s.%s|returns self unchanged" % (mod, cls, meth), not eff and rets == {"self"}, "return self",
+                  "%s has effects (%s) or returns %s: iterating a partly consumed walk again restarts or disturbs it" % (meth, [repr(e)[:40] for e in eff[:3]], sorted(rets)),
+                  ctx.py.loc(mod, node))
+    for mod in CLIENTS:
+        for meth, call in (("get", "get"), ("get_many", "get_many")):
+            ps = paths(ctx, rep, rule, mod, "SnmpSession", meth)
+            if not ps:
+                continue
+            node = fn_node(ctx, mod, "SnmpSession", meth)
+            bad = None
+            for p in ps:
+                if p.done != "return" or p.ret is None:
+                    continue
+                r = pysym.text(p.ret)
+                direct = re.match(r"^(await )?(self\._sock\.%s\(.*\)|wait_for\(coro\(\w+\), .*\))$" % call, r) is not None
+                if not direct:
+                    bad = r
+            rep.check(rule, "%s.SnmpSession.%s|result passed through" % (mod, meth), bad is None, "returns the socket's result as is",
+                      "%s() post-processes the result (%s): values the agent returned are dropped, reordered or replaced" % (meth, (bad or "")[:100]),
+                      ctx.py.loc(mod, node))
+
